@@ -4,7 +4,6 @@ package main
 
 import (
 	"fmt"
-	"go/ast"
 	"go/token"
 	"go/types"
 	"sort"
@@ -392,269 +391,328 @@ func runPair2(m *Model, r *RuleResult) {
 	}
 }
 
-// ---------- PAIR-3 (typed AST) ----------
+// ---------- PAIR-3 (SSA value flow over Layout and the helpers of its package) ----------
 
 func runPair3(m *Model, r *RuleResult) {
-	p := m.Pkg("autog")
-	if p == nil {
-		r.undecided("anchor:autog", "-", "package autog", "not found")
+	fam := m.layoutFamily()
+	if len(fam) == 0 {
+		r.undecided("anchor:Layout", "-", "autog.Layout", "not found")
 		return
 	}
-	info := p.TypesInfo
-	selPath := func(e ast.Expr) (root types.Object, path string) {
-		var parts []string
-		for {
-			switch x := e.(type) {
-			case *ast.ParenExpr:
-				e = x.X
-				continue
-			case *ast.SelectorExpr:
-				parts = append([]string{x.Sel.Name}, parts...)
-				e = x.X
-				continue
-			case *ast.Ident:
-				return info.Uses[x], strings.Join(parts, ".")
-			}
-			return nil, ""
+	inFam := map[*ssa.Function]bool{}
+	for _, f := range fam {
+		inFam[f] = true
+	}
+	// resolve: a parameter of a helper stands for the argument at its (single) call site inside the family
+	var resolve func(v ssa.Value, depth int) ssa.Value
+	resolve = func(v ssa.Value, depth int) ssa.Value {
+		par, ok := v.(*ssa.Parameter)
+		if !ok || depth > 3 {
+			return v
 		}
+		idx := paramIndex(par.Parent(), par)
+		var up ssa.Value
+		n := 0
+		for _, f := range fam {
+			for _, s := range staticCalls(f, func(c *ssa.Function) bool { return c == par.Parent() }) {
+				if idx >= 0 && idx < len(s.Common().Args) {
+					up = s.Common().Args[idx]
+					n++
+				}
+			}
+		}
+		if n != 1 {
+			return v
+		}
+		if ct, isCT := up.(*ssa.ChangeType); isCT {
+			up = ct.X
+		}
+		return resolve(up, depth+1)
+	}
+	loadOf := func(v ssa.Value) (base ssa.Value, loc string, ok bool) {
+		if ct, isCT := v.(*ssa.ChangeType); isCT {
+			v = ct.X
+		}
+		u, isU := v.(*ssa.UnOp)
+		if !isU || u.Op != token.MUL {
+			return nil, "", false
+		}
+		fa, isFA := u.X.(*ssa.FieldAddr)
+		if !isFA {
+			return nil, "", false
+		}
+		b, steps := fieldChain(fa)
+		return b, locOfSteps(steps), true
+	}
+	// output literals: field stores grouped by the struct being built
+	type lit struct {
+		base   ssa.Value
+		fn     *ssa.Function
+		kind   string
+		stores map[string][]*ssa.Store
+		first  *ssa.Store
+	}
+	lits := map[ssa.Value]*lit{}
+	var order []*lit
+	for _, f := range fam {
+		eachInstr(f, func(in ssa.Instruction) {
+			st, ok := in.(*ssa.Store)
+			if !ok {
+				return
+			}
+			fa, ok := st.Addr.(*ssa.FieldAddr)
+			if !ok {
+				return
+			}
+			base, steps := fieldChain(fa)
+			loc := locOfSteps(steps)
+			kind := ""
+			switch {
+			case strings.HasPrefix(loc, pubNode+"."):
+				kind = pubNode
+			case strings.HasPrefix(loc, pubEdge+"."):
+				kind = pubEdge
+			default:
+				return
+			}
+			l := lits[base]
+			if l == nil {
+				l = &lit{base: base, fn: f, kind: kind, stores: map[string][]*ssa.Store{}, first: st}
+				lits[base] = l
+				order = append(order, l)
+			}
+			field := strings.TrimPrefix(loc, kind+".")
+			l.stores[field] = append(l.stores[field], st)
+		})
+	}
+	// element of the component's list, visited by a complete loop
+	elementOf := func(v ssa.Value, fn *ssa.Function, wantLoc string) (ok bool, why string) {
+		u, isU := v.(*ssa.UnOp)
+		if !isU || u.Op != token.MUL {
+			return false, "the source object is not an element of a list"
+		}
+		ia, isIA := u.X.(*ssa.IndexAddr)
+		if !isIA {
+			return false, "the source object is not an element of a list"
+		}
+		cont := resolve(ia.X, 0)
+		if _, loc, isLd := loadOf(cont); !isLd || loc != wantLoc {
+			return false, "the list that is scanned is not the component's " + strings.TrimPrefix(wantLoc, igDG+".")
+		}
+		loops := naturalLoops(fn)
+		ls := loopsContaining(loops, u.Block())
+		if len(ls) == 0 {
+			return false, "the element is not visited by a loop"
+		}
+		if _, okScan, whyScan := fullScanLoop(ls[0], ia.X); !okScan {
+			return false, "the loop does not visit every element: " + whyScan
+		}
+		for bb := range ls[0].Body {
+			for _, s := range bb.Succs {
+				if !ls[0].Body[s] && bb != ls[0].Head {
+					return false, "the loop can be left early at " + m.Pos(bb.Instrs[len(bb.Instrs)-1].Pos())
+				}
+			}
+		}
+		return true, ""
 	}
 	nNode, nEdge := 0, 0
-	for _, file := range p.Syntax {
-		if m.IsPosctl(file.Pos()) {
-			continue
-		}
-		for _, d := range file.Decls {
-			fd, ok := d.(*ast.FuncDecl)
-			if !ok || fd.Body == nil {
+	for _, l := range order {
+		pos := m.Pos(l.first.Pos())
+		loops := naturalLoops(l.fn)
+		switch l.kind {
+		case pubNode:
+			if len(l.stores["ID"]) == 0 {
+				continue // not a construction (e.g. an update of an existing output node)
+			}
+			nNode++
+			var nb ssa.Value
+			okID, okSize := false, false
+			if len(l.stores["ID"]) == 1 {
+				if b, loc, ok := loadOf(l.stores["ID"][0].Val); ok && loc == igNode+".ID" {
+					nb, okID = b, true
+				}
+			}
+			if len(l.stores["Size"]) == 1 && nb != nil {
+				if b, loc, ok := loadOf(l.stores["Size"][0].Val); ok && loc == igNode+".Size" && b == nb {
+					okSize = true
+				}
+			}
+			var extra []string
+			for f := range l.stores {
+				if f != "ID" && f != "Size" && f != "X" && f != "Size.X" {
+					extra = append(extra, f)
+				}
+			}
+			sort.Strings(extra)
+			if okID && okSize && len(extra) == 0 {
+				r.holds("out-node:ID", pos, "output node ID is the visited node's ID")
+				r.holds("out-node:Size", pos, "output node Size (X, Y, W, H) is the visited node's Size")
+			} else {
+				r.violation("out-node:fields", pos, "output node must be {ID: n.ID, Size: n.Size} of one node", fmt.Sprintf("ID from a node's ID: %v, Size from the same node's Size: %v, other fields set: %v", okID, okSize, extra))
+			}
+			if nb == nil {
+				r.undecided("out-node:loop", pos, "output nodes are built from the component's Nodes", "source node not identified")
 				continue
 			}
-			ast.Inspect(fd.Body, func(n ast.Node) bool {
-				cl, ok := n.(*ast.CompositeLit)
-				if !ok {
-					return true
+			if ok, why := elementOf(nb, l.fn, igDG+".Nodes"); ok {
+				r.holds("out-node:loop", pos, "output nodes are collected by a complete loop over the component's Nodes")
+			} else {
+				r.violation("out-node:loop", pos, "output nodes are collected by a complete loop over the component's Nodes", why)
+			}
+			// filter: built exactly unless (virtual and virtual output not requested)
+			var deps []string
+			okFilter := true
+			hasV, hasI := false, false
+			isHead := map[*ssa.BasicBlock]bool{}
+			for _, lp := range loops {
+				isHead[lp.Head] = true
+			}
+			classify := func(c ssa.Value) string {
+				if b, loc, ok := loadOf(c); ok && loc == igNode+".IsVirtual" && b == nb {
+					return "V"
 				}
-				t := info.TypeOf(cl)
-				if t == nil {
-					return true
+				if _, loc, ok := loadOf(resolve(c, 0)); ok && strings.HasSuffix(loc, ".includeVirtual") {
+					return "I"
 				}
-				switch namedKey(t) {
-				case pubNode:
-					nNode++
-					got := map[string]string{}
-					var root types.Object
-					okRoot := true
-					for _, el := range cl.Elts {
-						kv, ok := el.(*ast.KeyValueExpr)
-						if !ok {
-							got["<positional>"] = types.ExprString(el)
-							continue
-						}
-						k := kv.Key.(*ast.Ident).Name
-						ro, path := selPath(kv.Value)
-						got[k] = path
-						if root == nil {
-							root = ro
-						} else if root != ro {
-							okRoot = false
-						}
-					}
-					pos := m.Pos(cl.Pos())
-					isNode := root != nil && namedKey(root.Type()) == igNode
-					if got["ID"] == "ID" && got["Size"] == "Size" && len(got) == 2 && okRoot && isNode {
-						r.holds("out-node:ID", pos, "output node ID is the visited node's ID")
-						r.holds("out-node:Size", pos, "output node Size (X, Y, W, H) is the visited node's Size")
+				return ""
+			}
+			var tests []*ssa.BasicBlock
+			for _, d := range controlDeps(l.first.Block()) {
+				if isHead[d.If.Block()] {
+					continue
+				}
+				switch classify(d.If.Cond) {
+				case "V":
+					deps = append(deps, fmt.Sprintf("n.IsVirtual is %v", d.Branch == 0))
+					if d.Branch == 1 {
+						hasV = true
 					} else {
-						r.violation("out-node:fields", pos, "output node must be {ID: n.ID, Size: n.Size} of one node", fmt.Sprintf("got %v (single source node: %v)", got, okRoot && isNode))
+						okFilter = false
 					}
-					if root != nil {
-						checkSkipCondition(m, r, info, fd, cl, root)
+					tests = append(tests, d.If.Block())
+				case "I":
+					deps = append(deps, fmt.Sprintf("includeVirtual is %v", d.Branch == 0))
+					if d.Branch == 0 {
+						hasI = true
+					} else {
+						okFilter = false
 					}
-				case pubEdge:
-					nEdge++
-					got := map[string]string{}
-					var root types.Object
-					okRoot := true
-					for _, el := range cl.Elts {
-						kv, ok := el.(*ast.KeyValueExpr)
-						if !ok {
-							got["<positional>"] = types.ExprString(el)
-							continue
-						}
-						k := kv.Key.(*ast.Ident).Name
-						v := kv.Value
-						wrap := ""
-						if call, ok := v.(*ast.CallExpr); ok && len(call.Args) == 1 {
-							wrap = funcFullName(calleeObj(info, call)) + ":"
-							v = call.Args[0]
-						}
-						ro, path := selPath(v)
-						got[k] = wrap + path
-						if root == nil {
-							root = ro
-						} else if root != ro {
-							okRoot = false
-						}
+					tests = append(tests, d.If.Block())
+				default:
+					okFilter = false
+					deps = append(deps, d.If.Cond.String()+" at "+m.Pos(d.If.Cond.Pos()))
+				}
+			}
+			// the two tests themselves depend on nothing but each other
+			for _, tb := range tests {
+				for _, d := range controlDeps(tb) {
+					if isHead[d.If.Block()] || classify(d.If.Cond) != "" {
+						continue
 					}
-					pos := m.Pos(cl.Pos())
-					want := map[string]string{"FromID": "From.ID", "ToID": "To.ID", "Points": "slices.Clone:Points", "ArrowHeadStart": "ArrowHeadStart"}
-					isEdge := root != nil && namedKey(root.Type()) == igEdge
-					for _, k := range []string{"FromID", "ToID", "Points", "ArrowHeadStart"} {
-						w := want[k]
-						if got[k] == w && okRoot && isEdge {
-							r.holds("out-edge:"+k, pos, "output edge "+k+" <- e."+strings.TrimPrefix(w, "slices.Clone:")+" of the visited edge")
-						} else {
-							r.violation("out-edge:"+k, pos, "output edge "+k+" must be taken from e."+w, fmt.Sprintf("got %q (single source edge: %v)", got[k], okRoot && isEdge))
-						}
-					}
-					if len(got) != len(want) {
-						r.violation("out-edge:extra", pos, "output edge literal has exactly the four mapped fields", fmt.Sprintf("got %v", got))
-					}
-					if root != nil {
-						checkUnconditionalAppend(m, r, info, fd, cl, root)
+					okFilter = false
+					deps = append(deps, "(the filter itself is evaluated only under "+d.If.Cond.String()+" at "+m.Pos(d.If.Cond.Pos())+")")
+				}
+			}
+			if okFilter && hasV && hasI {
+				r.holds("out-node:filter", pos, "a node is skipped exactly when it is virtual and virtual output was not requested")
+			} else {
+				r.violation("out-node:filter", pos, "a node may be skipped only under n.IsVirtual && !includeVirtual", fmt.Sprintf("the construction of the output node depends on: %v - real nodes dropped or helper nodes leaked", deps))
+			}
+		case pubEdge:
+			if len(l.stores["FromID"]) == 0 && len(l.stores["ToID"]) == 0 {
+				continue
+			}
+			nEdge++
+			var eb ssa.Value
+			same := true
+			note := func(b ssa.Value) {
+				if eb == nil {
+					eb = b
+				} else if eb != b {
+					same = false
+				}
+			}
+			okF := map[string]bool{}
+			for field, end := range map[string]string{"FromID": "From", "ToID": "To"} {
+				if len(l.stores[field]) != 1 {
+					continue
+				}
+				if nbase, loc, ok := loadOf(l.stores[field][0].Val); ok && loc == igNode+".ID" {
+					if ebase, loc2, ok2 := loadOf(nbase); ok2 && loc2 == igEdge+"."+end {
+						note(ebase)
+						okF[field] = true
 					}
 				}
-				return true
-			})
+			}
+			if len(l.stores["ArrowHeadStart"]) == 1 {
+				if ebase, loc, ok := loadOf(l.stores["ArrowHeadStart"][0].Val); ok && loc == igEdge+".ArrowHeadStart" {
+					note(ebase)
+					okF["ArrowHeadStart"] = true
+				}
+			}
+			if len(l.stores["Points"]) == 1 {
+				// a copy made by slices.Clone or by a helper of this package that receives e.Points
+				if call, ok := l.stores["Points"][0].Val.(*ssa.Call); ok {
+					cal := call.Call.StaticCallee()
+					isClone := false
+					if cal != nil {
+						o := cal
+						if cal.Origin() != nil {
+							o = cal.Origin()
+						}
+						isClone = o.Pkg != nil && o.Pkg.Pkg.Path() == "slices" && o.Name() == "Clone"
+					}
+					if isClone || (cal != nil && inFam[cal]) || (cal != nil && pkgPathOf(cal) == pkgPathOf(fam[0])) {
+						for _, a := range call.Call.Args {
+							if ebase, loc, ok := loadOf(a); ok && loc == igEdge+".Points" {
+								note(ebase)
+								okF["Points"] = true
+							}
+						}
+					}
+				}
+			}
+			want := map[string]string{"FromID": "From.ID", "ToID": "To.ID", "Points": "a copy of Points", "ArrowHeadStart": "ArrowHeadStart"}
+			for _, k := range []string{"FromID", "ToID", "Points", "ArrowHeadStart"} {
+				if okF[k] && same {
+					r.holds("out-edge:"+k, pos, "output edge "+k+" <- e."+want[k]+" of the visited edge")
+				} else {
+					r.violation("out-edge:"+k, pos, "output edge "+k+" must be taken from e."+want[k], fmt.Sprintf("recognised: %v (single source edge: %v)", okF[k], same))
+				}
+			}
+			var extra []string
+			for f := range l.stores {
+				if _, ok := want[f]; !ok {
+					extra = append(extra, f)
+				}
+			}
+			sort.Strings(extra)
+			if len(extra) > 0 {
+				r.violation("out-edge:extra", pos, "output edge literal has exactly the four mapped fields", fmt.Sprintf("also sets %v", extra))
+			}
+			if eb == nil {
+				r.undecided("out-edge:loop", pos, "output edges are built from the component's Edges", "source edge not identified")
+				continue
+			}
+			if ok, why := elementOf(eb, l.fn, igDG+".Edges"); ok {
+				r.holds("out-edge:loop", pos, "output edges are collected by a complete loop over the component's Edges")
+			} else {
+				r.violation("out-edge:loop", pos, "output edges are collected by a complete loop over the component's Edges", why)
+			}
+			var deps []string
+			for _, d := range iterationControlDeps(l.first.Block(), loops) {
+				deps = append(deps, d.If.Cond.String()+" at "+m.Pos(d.If.Cond.Pos()))
+			}
+			if len(deps) == 0 {
+				r.holds("out-edge:unconditional", pos, "every edge of the component is turned into an output edge, unconditionally")
+			} else {
+				r.violation("out-edge:unconditional", pos, "every edge of the component must be appended to the output", fmt.Sprintf("the construction of the output edge depends on %v", deps))
+			}
 		}
 	}
 	if nNode != 1 || nEdge != 1 {
-		r.undecided("out-literals", "-", "package autog builds output nodes and edges with one composite literal each", fmt.Sprintf("found %d node and %d edge literals", nNode, nEdge))
-	}
-}
-
-// enclosing range statement whose value variable is obj
-func enclosingRange(fd *ast.FuncDecl, info *types.Info, target ast.Node, obj types.Object) *ast.RangeStmt {
-	var found *ast.RangeStmt
-	ast.Inspect(fd.Body, func(n ast.Node) bool {
-		rs, ok := n.(*ast.RangeStmt)
-		if !ok {
-			return true
-		}
-		if rs.Pos() <= target.Pos() && target.End() <= rs.End() {
-			if id, ok := rs.Value.(*ast.Ident); ok && info.Defs[id] == obj {
-				found = rs
-			}
-		}
-		return true
-	})
-	return found
-}
-
-func checkSkipCondition(m *Model, r *RuleResult, info *types.Info, fd *ast.FuncDecl, cl *ast.CompositeLit, nodeVar types.Object) {
-	rs := enclosingRange(fd, info, cl, nodeVar)
-	pos := m.Pos(cl.Pos())
-	if rs == nil {
-		r.undecided("out-node:loop", pos, "output nodes are built in a range over g.Nodes", "enclosing range over the node variable not found")
-		return
-	}
-	if types.ExprString(rs.X) == "" || !strings.HasSuffix(types.ExprString(rs.X), ".Nodes") {
-		r.violation("out-node:loop", pos, "output nodes are collected by ranging over the component's Nodes", "ranges over "+types.ExprString(rs.X))
-	} else {
-		r.holds("out-node:loop", pos, "output nodes are collected by ranging over the component's Nodes")
-	}
-	// statements of the loop body before the literal: only one `if n.IsVirtual && !X.includeVirtual { continue }`
-	var conds []string
-	okShape := true
-	for _, st := range rs.Body.List {
-		if st.Pos() > cl.Pos() {
-			break
-		}
-		if st.Pos() <= cl.Pos() && cl.End() <= st.End() {
-			// the statement containing the literal must not be nested in a conditional
-			if _, isIf := st.(*ast.IfStmt); isIf {
-				okShape = false
-			}
-			break
-		}
-		is, ok := st.(*ast.IfStmt)
-		if !ok {
-			continue
-		}
-		// does it skip?
-		skips := false
-		ast.Inspect(is.Body, func(n ast.Node) bool {
-			if b, ok := n.(*ast.BranchStmt); ok && (b.Tok == token.CONTINUE || b.Tok == token.BREAK) {
-				skips = true
-			}
-			if _, ok := n.(*ast.ReturnStmt); ok {
-				skips = true
-			}
-			return true
-		})
-		if skips {
-			conds = append(conds, types.ExprString(is.Cond))
-		}
-	}
-	ok := okShape && len(conds) == 1
-	if ok {
-		c := strings.ReplaceAll(conds[0], " ", "")
-		ok = (strings.Contains(c, "IsVirtual&&!") && strings.HasSuffix(c, "includeVirtual") && strings.Count(c, "&&") == 1 && !strings.Contains(c, "||")) ||
-			(strings.HasPrefix(c, "!") && strings.Contains(c, "includeVirtual&&") && strings.HasSuffix(c, "IsVirtual") && strings.Count(c, "&&") == 1 && !strings.Contains(c, "||"))
-		if ok && !strings.Contains(c, nodeVar.Name()+".IsVirtual") {
-			ok = false
-		}
-	}
-	if ok {
-		r.holds("out-node:filter", pos, "a node is skipped exactly when it is virtual and virtual output was not requested")
-	} else {
-		r.violation("out-node:filter", pos, "a node may be skipped only under n.IsVirtual && !includeVirtual", fmt.Sprintf("skip conditions before the literal: %v (literal nested in a conditional: %v): real nodes dropped or helper nodes leaked", conds, !okShape))
-	}
-}
-
-func checkUnconditionalAppend(m *Model, r *RuleResult, info *types.Info, fd *ast.FuncDecl, cl *ast.CompositeLit, edgeVar types.Object) {
-	rs := enclosingRange(fd, info, cl, edgeVar)
-	pos := m.Pos(cl.Pos())
-	if rs == nil {
-		r.undecided("out-edge:loop", pos, "output edges are built in a range over g.Edges", "enclosing range not found")
-		return
-	}
-	if !strings.HasSuffix(types.ExprString(rs.X), ".Edges") {
-		r.violation("out-edge:loop", pos, "output edges are collected by ranging over the component's Edges", "ranges over "+types.ExprString(rs.X))
-	} else {
-		r.holds("out-edge:loop", pos, "output edges are collected by ranging over the component's Edges")
-	}
-	cond := false
-	for _, st := range rs.Body.List {
-		switch x := st.(type) {
-		case *ast.IfStmt:
-			cond = true
-			_ = x
-		case *ast.BranchStmt, *ast.ReturnStmt:
-			cond = true
-		}
-	}
-	// the variable initialised from the literal
-	var litVar types.Object
-	for _, st := range rs.Body.List {
-		if as, ok := st.(*ast.AssignStmt); ok && len(as.Rhs) == 1 && as.Rhs[0] == ast.Expr(cl) {
-			if id, ok := as.Lhs[0].(*ast.Ident); ok {
-				litVar = info.Defs[id]
-				if litVar == nil {
-					litVar = info.Uses[id]
-				}
-			}
-		}
-	}
-	// an append of the edge must exist at top level of the body
-	appended := false
-	for _, st := range rs.Body.List {
-		if as, ok := st.(*ast.AssignStmt); ok && len(as.Rhs) == 1 {
-			if call, ok := as.Rhs[0].(*ast.CallExpr); ok && funcFullName(calleeObj(info, call)) == "builtin.append" && sameExpr(as.Lhs[0], call.Args[0]) {
-				for _, a := range call.Args[1:] {
-					if id, ok := a.(*ast.Ident); ok && litVar != nil && info.Uses[id] == litVar {
-						appended = true
-					}
-					if a == ast.Expr(cl) {
-						appended = true
-					}
-				}
-			}
-		}
-	}
-	if !cond && appended {
-		r.holds("out-edge:unconditional", pos, "every edge of the component is appended to the output, unconditionally")
-	} else {
-		r.violation("out-edge:unconditional", pos, "every edge of the component must be appended to the output", fmt.Sprintf("conditional statements in the loop body: %v, top-level append: %v", cond, appended))
+		r.undecided("out-literals", "-", "Layout and its helpers build output nodes and output edges in one place each", fmt.Sprintf("found %d node and %d edge constructions", nNode, nEdge))
 	}
 }
 
@@ -804,6 +862,80 @@ func runFlow1(m *Model, r *RuleResult) {
 	var bad []string
 	pointsX, pointsOther := 0, 0
 	seen := map[ssa.Value]bool{}
+	// walkPoint: a local [2]float64 whose coordinate k received the shifted value; follow the whole-array value into slice
+	// elements, and those slices (through returns of package helpers) into the Points field of an output edge
+	var walkSlice func(sv ssa.Value, k int64, depth int)
+	walkSlice = func(sv ssa.Value, k int64, depth int) {
+		if sv == nil || sv.Referrers() == nil || depth > 4 || seen[sv] {
+			return
+		}
+		seen[sv] = true
+		for _, ref := range *sv.Referrers() {
+			switch y := ref.(type) {
+			case *ssa.DebugRef, *ssa.IndexAddr:
+			case *ssa.Phi:
+				walkSlice(y, k, depth+1)
+			case *ssa.Return:
+				for _, f := range pkgFns {
+					for _, site := range staticCalls(f, func(c *ssa.Function) bool { return c == y.Parent() }) {
+						walkSlice(site.Value(), k, depth+1)
+					}
+				}
+			case *ssa.Store:
+				if y.Val != sv {
+					continue
+				}
+				ai := classifyAddr(y.Addr)
+				okPts := false
+				for _, l := range ai.Locs {
+					if strings.HasPrefix(l, pubEdge+".Points") {
+						okPts = true
+					}
+				}
+				switch {
+				case okPts && k == 0:
+					pointsX++
+				case okPts:
+					pointsOther++
+					bad = append(bad, fmt.Sprintf("shift added to coordinate [%d] of a route point at %s (only x = [0] moves with the component)", k, m.Pos(y.Pos())))
+				default:
+					bad = append(bad, "a slice of shifted points is stored into "+strings.Join(ai.Locs, ",")+" at "+m.Pos(y.Pos()))
+				}
+			case ssa.CallInstruction:
+				if b, isB := y.Common().Value.(*ssa.Builtin); isB && (b.Name() == "len" || b.Name() == "cap") {
+					continue
+				}
+				bad = append(bad, "a slice of shifted points is passed to "+calleeFullName(y.Common())+" at "+m.Pos(ref.Pos()))
+			default:
+				bad = append(bad, fmt.Sprintf("a slice of shifted points is used by %T at %s", ref, m.Pos(ref.Pos())))
+			}
+		}
+	}
+	walkPoint := func(al *ssa.Alloc, k int64, at ssa.Instruction) {
+		n := 0
+		for _, ref := range *al.Referrers() {
+			ld, ok := ref.(*ssa.UnOp)
+			if !ok || ld.Op != token.MUL || ld.Referrers() == nil {
+				continue
+			}
+			for _, r2 := range *ld.Referrers() {
+				st, ok := r2.(*ssa.Store)
+				if !ok || st.Val != ssa.Value(ld) {
+					continue
+				}
+				ia, ok := st.Addr.(*ssa.IndexAddr)
+				if !ok {
+					bad = append(bad, "a shifted point is stored into something that is not a slice element at "+m.Pos(st.Pos()))
+					continue
+				}
+				n++
+				walkSlice(ia.X, k, 0)
+			}
+		}
+		if n == 0 {
+			bad = append(bad, "a shifted point built at "+m.Pos(at.Pos())+" is not stored into a slice of points")
+		}
+	}
 	var walk func(v ssa.Value, isShiftItself bool)
 	walk = func(v ssa.Value, direct bool) {
 		if seen[v] || v.Referrers() == nil {
@@ -824,6 +956,20 @@ func runFlow1(m *Model, r *RuleResult) {
 			case *ssa.Store:
 				if x.Val != v {
 					continue
+				}
+				// coordinate k of a point built in a local array literal: follow the array into the slice it is stored in
+				if ia, ok := x.Addr.(*ssa.IndexAddr); ok {
+					if al, ok := ia.X.(*ssa.Alloc); ok {
+						if _, isArr := al.Type().Underlying().(*types.Pointer).Elem().Underlying().(*types.Array); isArr {
+							k, isC := constInt(ia.Index)
+							if !isC {
+								bad = append(bad, "shift stored at a non-constant coordinate of a point at "+m.Pos(x.Pos()))
+								continue
+							}
+							walkPoint(al, k, x)
+							continue
+						}
+					}
 				}
 				ai := classifyAddr(x.Addr)
 				switch {
